@@ -6,3 +6,8 @@ CHECKS = {
   "note": "Trusts the reference order in h/ref/natural.go (tokenise into digit runs / single bytes, numeric compare, fewer leading zeros first) as the statement of 'natural order'; natsort is reached through the verif-tagged hook package.",
  },
 }
+CHECKS["C18"] = {
+  "technique": "property-based testing by exhaustive enumeration: every defined value of the 35 enum types round-trips through String/FromString and through a minimal module (llir re-parse and LLVM 14 differential); flag subsets enumerated / drawn with rapid",
+  "text": "Exhaustive over the finite domain: every value whose String() is a keyword (scan 0..65535, all single bits, all constants read from the source with go/parser so that the scan is shown complete) is mapped back by FromString, keywords are unique per type and equal the declared line comment; every keyword is also placed in a minimal module and parsed, printed, re-parsed and compared under LLVM's reading; all subsets of AllocKind and DISPFlag members and all 1- and 2-member DIFlag sets are enumerated, larger DIFlag sets and all 1024 numeric `cc N` forms are covered.",
+  "note": "Trusts go/parser+go/types reading of ir/enum/enum.go, the hand-written module templates (checks/c18/module_test.go) and LLVM 14 tools; LLVM-15-only keywords are judged by llir's own round trip only. Known finding KF-C18-cc1 (`cc 1`).",
+}
